@@ -95,8 +95,16 @@ func c10(c *Ctx) {
 			for _, b := range fn.Blocks {
 				for _, in := range b.Instrs {
 					set, key, isAdd := core.SetAdd(in)
-					if !isAdd || !isLookupField(set, "asked") {
+					if !isAdd {
 						continue
+					}
+					if !isLookupField(set, "asked") {
+						// map literal form: asked: map[ID]bool{self: true} - the fresh map that
+						// receives the entry is the one stored into the field
+						mm, isMM := set.(*ssa.MakeMap)
+						if !isMM || storedInto(mm) != "asked" {
+							continue
+						}
 					}
 					if core.Derives(key, func(v ssa.Value) bool {
 						cc, ok := v.(*ssa.Call)
